@@ -288,7 +288,7 @@ def flatten_phase(ctx, n, rng, i, tag=""):
                     hook_state["bad"] = (label, errs[0])
     probes.State.post.append(post)
     try:
-        with budget.StepBudget(max(2_000_000, 400 * len(e0.occ) * 200)) as b:
+        with budget.StepBudget(max(2_000_000, 400 * len(e0.occ) * 200, 60 * Universe.of(n).size() ** 2)) as b:      # (the hooks' own walks count too: quadratic)
             try:
                 flatten(n)
             except budget.StepBudgetExceeded:
